@@ -149,9 +149,17 @@ def run(rep: Report, tier: str) -> None:
     # ---------------------------------------------------------------- C01.e
     re_ = rep.rule("C01.e", "method and candidate structure in force are looked up with the taxable event's own year", floor=3)
     look = prog.func(engine.AE, "AccountingEngine.get_acquired_lot_for_taxable_event")
-    txt = unparse(look.node)
-    ok1 = "self._get_accounting_method(taxable_event.timestamp.year)" in txt
-    ok2 = "self.__years_2_lot_candidates.find_max_value_less_than(taxable_event.timestamp.year)" in txt
+    # by term, with single-assignment locals substituted (a year kept in a local is the same year)
+    lctx = norm.ctx_for(look, subst_locals=True)
+    own_year = norm.term(ast.parse("taxable_event.timestamp.year", mode="eval").body, lctx)
+    ok1 = ok2 = False
+    for c_ in ast.walk(look.node):
+        if isinstance(c_, ast.Call) and isinstance(c_.func, ast.Attribute) and len(c_.args) == 1 and not c_.keywords:
+            arg_t = norm.term(c_.args[0], lctx)
+            if c_.func.attr == "_get_accounting_method" and unparse(c_.func.value) == "self" and tkey(arg_t) == tkey(own_year):
+                ok1 = True
+            if c_.func.attr == "find_max_value_less_than" and unparse(c_.func.value) == "self.__years_2_lot_candidates" and tkey(arg_t) == tkey(own_year):
+                ok2 = True
     rep.check(ok1, re_, look.module, look.qualname, "method = method in force for taxable_event.timestamp.year", "the accounting method is not looked up with the taxable event's own year (the lot's year or a fixed year would apply the wrong method after a schedule change)", loc(look.node))
     rep.check(ok2, re_, look.module, look.qualname, "candidates = candidate structure in force for taxable_event.timestamp.year", "the candidate structure is not looked up with the taxable event's own year", loc(look.node))
     gm = prog.func(engine.AE, "AccountingEngine._get_accounting_method")
